@@ -87,7 +87,8 @@ func ZZC15Events() {
 		kinds[i] = zzEvKinds[(rot+i)%len(zzEvKinds)]
 		forms[i] = zzChoice("form", 5)
 	}
-	src := "cnt := 0\nsum := 0\nprint \"top\" cnt sum\n"
+	// globals named like the handlers' parameters: a parameter shadows them, it never overwrites them
+	src := "cnt := 0\nsum := 0\nk := \"gk\"\nx := 100\ny := 200\nt := 300\nid := \"gid\"\nval := \"gval\"\nprint \"top\" cnt sum\nprint k x y t id val\n"
 	twin := src
 	for i, ek := range kinds {
 		body := zzHandlerBody(ek, forms[i])
@@ -114,7 +115,7 @@ func ZZC15Events() {
 	zzAssert(len(ev.EventHandlerNames) == H, "C15: every declared handler is registered")
 
 	cnt, sum := 0.0, 0.0
-	want := "print:top 0 0\n"
+	want := "print:top 0 0\n|print:gk 100 200 300 gid gval\n"
 	calls := ""
 	for e := 0; e < E; e++ {
 		hi := zzChoice("ev", H)
@@ -156,6 +157,12 @@ func ZZC15Events() {
 		zzAssert(zzSameNum(zzGlobalNum(ev, "sum"), sum), "C15: global accumulates the numeric payloads in order")
 		_, leaked := ev.global.get("loc")
 		zzAssert(!leaked, "C15: handler locals do not leak into the global scope")
+		gs := ""
+		for _, n := range []string{"k", "x", "y", "t", "id", "val"} {
+			v, _ := ev.global.get(n)
+			gs += v.String() + " "
+		}
+		zzAssert(gs == "gk 100 200 300 gid gval ", "C15: a handler parameter shadows a global of the same name, the payload never overwrites it")
 	}
 	zzReach("events-ok")
 	zzWitness("end")
